@@ -83,6 +83,19 @@ func runC12Conc(c *Ctx, r *Rng) {
 	must(err)
 	defer rep.Close()
 	nG, per := r.Range(2, 8), r.Range(20, 120)
+	// a fleet: 11-14 reporters of one protocol alive in the process (one per tenant, say), each used by its own
+	// goroutine at the same time - nothing a reporter measures with may be shared with another reporter
+	reps := []m3.Reporter{rep}
+	if r.Chance(25) {
+		nG, per = r.Range(11, 14), r.Range(15, 50)
+		for len(reps) < nG {
+			x, err := m3.NewReporter(opts)
+			must(err)
+			defer x.Close()
+			reps = append(reps, x)
+		}
+		c.Cov.Hit("c12conc.fleet-of-reporters")
+	}
 	shared := make([]map[string]string, 3)
 	for i := range shared {
 		shared[i] = map[string]string{}
@@ -100,6 +113,8 @@ func runC12Conc(c *Ctx, r *Rng) {
 		}
 	}
 	got := make([][][]int32, nG)
+	var panicMu sync.Mutex
+	var panics []string
 	var wg sync.WaitGroup
 	start := make(chan struct{})
 	for g := 0; g < nG; g++ {
@@ -109,14 +124,24 @@ func runC12Conc(c *Ctx, r *Rng) {
 		go func() {
 			defer wg.Done()
 			<-start
-			for i, sp := range specs[g] {
-				got[g][i] = m3AllocSize(rep, sp)
+			if p, v := catch(func() {
+				for i, sp := range specs[g] {
+					got[g][i] = m3AllocSize(reps[g%len(reps)], sp)
+				}
+			}); p {
+				panicMu.Lock()
+				panics = append(panics, fmt.Sprint(v))
+				panicMu.Unlock()
 			}
 		}()
 	}
 	close(start)
 	wg.Wait()
-	line := fmt.Sprintf("protocol=%v goroutines=%d allocations-each=%d", proto, nG, per)
+	line := fmt.Sprintf("protocol=%v reporters=%d goroutines=%d allocations-each=%d", proto, len(reps), nG, per)
+	if len(panics) > 0 {
+		c.Cov.Fail(Failure{Kind: "crash", Clause: "no-panic", Signature: "c12-concurrent-allocation-panic", Line: line, Reply: "Allocate panicked: " + panics[0]})
+		return
+	}
 	for g := range got {
 		for i := range got[g] {
 			if fmt.Sprint(got[g][i]) != fmt.Sprint(want[g][i]) {
@@ -131,7 +156,7 @@ func runC12Conc(c *Ctx, r *Rng) {
 }
 
 func suiteC12Conc(c *Ctx) {
-	c.Cov.Rule = "2-8 goroutines allocate 20-120 counters / gauges / timers / histograms each (names up to 60 bytes, 0-4 tags, boundary lengths; the histograms over three tag sets of 0-8 tags shared by all goroutines, with bounds whose renderings differ in length, charged per bucket) on one M3 reporter at the same time, both protocols; oracle: the size charged to every handle equals the size charged for the same allocation on a fresh reporter with nothing else running; every case nontrivial"
+	c.Cov.Rule = "2-8 goroutines allocate 20-120 counters / gauges / timers / histograms each (names up to 60 bytes, 0-4 tags, boundary lengths; the histograms over three tag sets of 0-8 tags shared by all goroutines, with bounds whose renderings differ in length, charged per bucket) on one M3 reporter at the same time (a quarter of the cases: 11-14 reporters of one protocol, one goroutine each), both protocols; oracle: no panic, the size charged to every handle equals the size charged for the same allocation on a fresh reporter with nothing else running; every case nontrivial"
 	n := c.N(25, 400)
 	for i := 0; i < n; i++ {
 		runC12Conc(c, c.Rng.Fork())
